@@ -5,8 +5,9 @@ with the patch and the existing suite still passes; then applies it to /repo, ru
 the given properties, undoes it, and stores everything under /verif/seeded/<seed-id>/."""
 import json, os, shutil, subprocess, sys, time
 src, k, sid, props = sys.argv[1], sys.argv[2], sys.argv[3], sys.argv[4:]
-ROOT = "/verif"
-W = "/tmp/seedchk"
+ROOT = os.environ.get("VERIF_ROOT", "/verif")
+REPO = os.environ.get("SEED_REPO", "/repo")   # the tree the checks of ROOT are built from
+W = os.environ.get("SEED_SCRATCH", "/tmp/seedchk")
 env = dict(os.environ, CARGO_NET_OFFLINE="true")
 def sh(cmd, cwd=None, timeout=3600):
     p = subprocess.run(cmd, shell=True, cwd=cwd, stdout=subprocess.PIPE, stderr=subprocess.STDOUT, text=True, env=env, timeout=timeout)
@@ -32,10 +33,10 @@ res["suite_still_passes"] = (rc == 0)
 res["suite_output"] = out.strip().splitlines()[-1] if out.strip() else ""
 sh("git checkout -- . && git clean -fdq tests src", cwd=W)
 # now against /repo with the real checks
-rc, out = sh("git -C /repo status --porcelain")
+rc, out = sh("git -C %s status --porcelain" % REPO)
 if out.strip():
-    print("ABORT: /repo is not clean:", out); sys.exit(2)
-rc, out = sh("git -C /repo apply %s" % patch)
+    print("ABORT: %s is not clean:" % REPO, out); sys.exit(2)
+rc, out = sh("git -C %s apply %s" % (REPO, patch))
 res["checks"] = {}
 try:
     for p in props:
@@ -45,7 +46,7 @@ try:
         res["checks"][p] = {"exit": rc, "violation_lines": viol[:3], "caught": rc == 1 and bool(viol), "wall_s": round(time.time() - t, 1),
                             "tail": out.strip().splitlines()[-1] if out.strip() else ""}
 finally:
-    sh("git -C /repo checkout -- . && git -C /repo clean -fdq src tests")
+    sh("git -C %s checkout -- . && git -C %s clean -fdq src tests" % (REPO, REPO))
 d = os.path.join(ROOT, "seeded", sid)
 os.makedirs(d, exist_ok=True)
 shutil.copy(patch, os.path.join(d, "patch.diff"))
